@@ -41,21 +41,38 @@ def snapshot(root):
     return out
 
 
-def scenario(root, srcname, srcform, oloc, eloc, verbose):
+FILE_NAMES = ["prog.asm", "blink.v2.asm", "noext", "My Prog.ASM", "a.b.c.s"]
+
+
+def stem_of(fname):
+    """<source stem>: the file name without its last extension."""
+    return fname.rsplit(".", 1)[0] if "." in fname[1:] else fname
+
+
+def scenario(root, srcname, srcform, oloc, eloc, verbose, fname="prog.asm"):
     """Materialises one scenario; returns argv, cwd, expected output paths, writability."""
     proj = os.path.join(root, "proj")
     os.makedirs(proj)
     os.makedirs(os.path.join(root, "out"))
     missing = srcname == "missing-source"
     if not missing:
-        with open(os.path.join(proj, "prog.asm"), "w") as f:
+        with open(os.path.join(proj, fname), "w") as f:
             f.write(SOURCES[srcname])
+    # bystanders that must not be touched: files whose names are near the expected output names
+    for by in ("prog.v1.hex", stem_of(fname).split(".")[0] + ".hex.bak", "other.hex", "other.eep.hex"):
+        with open(os.path.join(proj, by), "w") as f:
+            f.write("BYSTANDER\n")
+    first = stem_of(fname).split(".")[0]
+    if first != stem_of(fname):
+        for by in (first + ".hex", first + ".eep.hex"):
+            with open(os.path.join(proj, by), "w") as f:
+                f.write("BYSTANDER\n")
     if srcform == "abs":
-        cwd, src = root, os.path.join(proj, "prog.asm")
+        cwd, src = root, os.path.join(proj, fname)
     elif srcform == "rel-dir":
-        cwd, src = root, "proj/prog.asm"
+        cwd, src = root, "proj/" + fname
     else:
-        cwd, src = proj, "prog.asm"
+        cwd, src = proj, fname
     argv = ["-s", src]
 
     def place(loc, which, default_name):
@@ -68,7 +85,7 @@ def scenario(root, srcname, srcform, oloc, eloc, verbose):
         if loc == "existing":
             p = os.path.join(root, "out", which + "-old.hex")
             with open(p, "w") as f:
-                f.write("OLD CONTENT\n")
+                f.write(":10000000FFFFFFFFFFFFFFFFFFFFFFFFFFFFFFFF00\r\n" * 20000)      # an older, much longer output
             return p, p, True
         if loc == "noparent":
             p = os.path.join(root, "nodir", which + ".hex")
@@ -78,8 +95,8 @@ def scenario(root, srcname, srcform, oloc, eloc, verbose):
             os.makedirs(p)
             return p, p, False
         return "/dev/full", "/dev/full", False
-    oarg, opath, ow = place(oloc, "flash", "prog.hex")
-    earg, epath, ew = place(eloc, "eep", "prog.eep.hex")
+    oarg, opath, ow = place(oloc, "flash", stem_of(fname) + ".hex")
+    earg, epath, ew = place(eloc, "eep", stem_of(fname) + ".eep.hex")
     if oarg:
         argv += ["-o", oarg if srcform == "abs" or oarg.startswith("/dev") else os.path.relpath(oarg, cwd)]
     if earg:
@@ -117,11 +134,17 @@ def check(prop, tier, seed):
                     for srcform in ("abs", "rel-dir", "rel-here"):
                         if tier == "quick" and srcform != ["abs", "rel-dir", "rel-here"][(len(combos)) % 3] and oloc != "default":
                             continue
-                        combos.append((srcname, srcform, oloc, eloc, len(combos) % 2 == 0))
+                        combos.append((srcname, srcform, oloc, eloc, len(combos) % 2 == 0, "prog.asm"))
+        # source file names: dotted stems, no extension, spaces, upper-case extension -- default and explicit outputs
+        for fname in FILE_NAMES[1:]:
+            for srcname in ("code+eeprom", "code", "fail-pass2", "eeprom-only"):
+                for srcform in ("abs", "rel-dir", "rel-here"):
+                    for oloc, eloc in (("default", "default"), ("writable", "default"), ("default", "writable")):
+                        combos.append((srcname, srcform, oloc, eloc, False, fname))
         runs, libjobs = [], []
-        for i, (srcname, srcform, oloc, eloc, verbose) in enumerate(combos):
+        for i, (srcname, srcform, oloc, eloc, verbose, fname) in enumerate(combos):
             root = scratch.sub("r%d" % i)
-            argv, cwd, opath, epath, ow, ew = scenario(root, srcname, srcform, oloc, eloc, verbose)
+            argv, cwd, opath, epath, ow, ew = scenario(root, srcname, srcform, oloc, eloc, verbose, fname)
             before = snapshot(root)
             p = subprocess.run([binary] + argv, cwd=cwd, env=env, stdout=subprocess.PIPE, stderr=subprocess.PIPE, timeout=120)
             after = snapshot(root)
@@ -133,10 +156,10 @@ def check(prop, tier, seed):
                          "stdout": (p.stdout + p.stderr).decode("utf-8", "replace")[:300]})
             # what the library builds for the same source, same working directory, same include set
             libroot = scratch.sub("l%d" % i)
-            files = {} if srcname == "missing-source" else {"proj/prog.asm": SOURCES[srcname]}
+            files = {} if srcname == "missing-source" else {"proj/" + fname: SOURCES[srcname]}
             libjobs.append({"k": "file", "id": i, "root": libroot, "files": files, "dirs": ["proj"],
                             "cwd": "" if srcform != "rel-here" else "proj",
-                            "main": {"abs": libroot + "/proj/prog.asm", "rel-dir": "proj/prog.asm", "rel-here": "prog.asm"}[srcform],
+                            "main": {"abs": libroot + "/proj/" + fname, "rel-dir": "proj/" + fname, "rel-here": fname}[srcform],
                             "paths": [stdinc]})
         lib = run_jobs(libjobs, workers=1, env=env)
         events = []
@@ -173,7 +196,7 @@ def check(prop, tier, seed):
             "states": stats["states"], "transitions": stats["transitions"], "traces_validated_against_impl": len(events),
             "evaluations": len(events), "distinct_nontrivial": len({(r["src"], tuple(r["argv"][2:])) for r in runs}),
             "rule": "%d sources (valid code / code+EEPROM / EEPROM only / empty / > 64 KiB / failing in parse, pass 2, limits, include / missing file) "
-                    "x source path form (absolute, with directory, bare) x flash output location x EEPROM output location, each of "
+                    "x source path form (absolute, with directory, bare) x source file names (plain, dotted stem, no extension, spaces, upper case) x flash output location x EEPROM output location, each of "
                     "{default next to the source, -o/-e writable, existing file, missing parent directory, a directory, /dev/full} x -v; "
                     "distinct = distinct (source, options)" % len(srcs),
             "lib_ok_runs": sum(1 for e in events if e["lib"]["ok"]), "lib_fail_runs": sum(1 for e in events if not e["lib"]["ok"]),
